@@ -10,9 +10,19 @@ Property theorems only (helper lemmas live in `D3/Proofs/TetraMesh*.lean`), abou
 * `make_tetrahedral_box` in all classes (one, two, three smallest sides; incl. sizes that differ by
   less than the relative tolerance) and `make_tetrahedral_cube`, for every positive size:
   `box_tiling_exact`, `box_vertices_and_potentials`, `box_topology`, `cube_tiling_exact`,
-  `cube_vertices_and_potentials`, `cube_topology`, `box_assert_only_without_zero_axis`.
+  `cube_vertices_and_potentials`, `cube_topology`, `box_assert_only_without_zero_axis`;
+* `make_tetrahedral_cylinder` in all three classes, for every radius, length and resolution hint:
+  `cylinder_class_decision`, `cylinder_tiling_all_classes` (positive volumes; volumes sum to the
+  volume of the prism over the polygon of ring vertices — what is *not* formalised is that this
+  prism is the convex hull of the vertex set), `cylinder_vertices_and_potentials`;
+* sphere / ellipsoid / capsule, structural: `sphere_structure`, `ellipsoid_structure`,
+  `icosphere_vertex_counts`, `capsule_structure_thm`.  PARTIAL: Σ volumes = hull volume for the
+  sphere, ellipsoid and capsule is not proved (oracle only).
 -/
 import D3.Proofs.TetraMeshBox
+import D3.Proofs.TetraMeshRound
+import D3.Proofs.TetraMeshCylinderTop
+import D3.Proofs.TetraMeshCapsule
 
 namespace D3
 namespace C17
@@ -220,6 +230,156 @@ theorem cube_topology (s : ℝ) (h : 0 < s) :
   rw [cube_vertices]; rfl
 
 example : (0 : ℝ) < 1 / 100 := by norm_num
+
+/-! ## `make_tetrahedral_cylinder` -/
+
+/-- **C17, cylinder: class decision.** With `tol = 1e-14·max(1, min(l/2, r))`: Long iff
+`l/2 − r > tol`, Short iff `r − l/2 > tol`, Medium iff `|l/2 − r| ≤ tol`. -/
+theorem cylinder_class_decision (r l : ℝ) :
+    (cylinderClass r l = 0 ↔ l / 2 - r > cylTol r l) ∧
+    (cylinderClass r l = 2 ↔ r - l / 2 > cylTol r l) ∧
+    (cylinderClass r l = 1 ↔ |l / 2 - r| ≤ cylTol r l) := cylinderClass_spec r l
+
+example : cylinderClass (1 : ℝ) 2 = 1 := by
+  rw [(cylinder_class_decision 1 2).2.2]
+  have := cylTol_pos 1 2
+  norm_num
+  exact le_of_lt this
+
+/-- **C17, cylinder: positive volumes and exact tiling of the polygonal prism, all classes, all
+resolution hints.** If the factory returns a mesh for positive radius and length, the number of
+vertices per circle is `n = max(3, ⌈2·np.pi·r/hint⌉)`, every tetrahedron has strictly positive
+volume and the volumes sum to `l · ½ r² Σ_k sin Δ_k`, the volume of the prism of height `l` over
+the polygon spanned by the ring vertices (`Δ_k` the angle between neighbouring ring vertices,
+`ringSinSum`).  This covers the class boundaries (Medium for `|l/2 − r| ≤ tol`).  Not formalised:
+that this prism is the convex hull of the vertex set (the oracle compares with
+`scipy.spatial.ConvexHull`). -/
+theorem cylinder_tiling_all_classes (r l hint : ℝ) (fuel : Nat) (hr : 0 < r) (hl : 0 < l)
+    (m : Mesh ℝ) (h : makeTetrahedralCylinder r l hint fuel = .ok m) :
+    ∃ (n : Nat) (vols : List ℝ), 3 ≤ n ∧ 2 * piLit * r / hint ≤ (n : ℝ) ∧
+      (n = 3 ∨ (n : ℝ) - 1 < 2 * piLit * r / hint) ∧
+      m.volumes = .ok vols ∧ (∀ v ∈ vols, 0 < v) ∧ sumS vols = l / 2 * r ^ 2 * ringSinSum n :=
+  cylinder_tiling r l hint fuel hr hl m h
+
+/-- the hypotheses are satisfiable: a unit-radius cylinder of length 3 with a coarse hint is a
+Long-class mesh with three vertices per circle -/
+example : ∃ m, makeTetrahedralCylinder (1 : ℝ) 3 3 1 = .ok m := by
+  have hx : (2 : ℝ) * piLit * 1 / 3 ≤ 1 + 2 := by rw [piLit_val]; norm_num
+  have hc : ceilMax3 ((2 : ℝ) * piLit * 1 / 3) 1 = .ok 3 := by
+    simp only [ceilMax3, ceilMax3Loop, hx, if_true]
+  unfold makeTetrahedralCylinder
+  rw [if_neg (by norm_num), hc]
+  dsimp only
+  unfold cylinderMeshN
+  dsimp only
+  split
+  · exact ⟨_, rfl⟩
+  · split
+    · exact ⟨_, rfl⟩
+    · rw [if_neg (by norm_num)]
+      exact ⟨_, rfl⟩
+
+/-- **C17, cylinder: vertices and potentials, all classes.** One potential per vertex; every
+vertex lies on or inside the cylinder; every vertex is either on the boundary (top or bottom
+plane; the ring vertices also on the lateral surface) with potential 0 or strictly inside with the
+medial potential `φ`, where `φ = r` in the Long and Medium class and `φ = l/2` in the Short class;
+`φ` differs from the inradius `min(r, l/2)` by at most the class tolerance (exactly equal in the
+Long and Short class). -/
+theorem cylinder_vertices_and_potentials (r l hint : ℝ) (fuel : Nat) (hr : 0 < r) (hl : 0 < l)
+    (m : Mesh ℝ) (h : makeTetrahedralCylinder r l hint fuel = .ok m) :
+    ∃ φ : ℝ, |φ - min r (l / 2)| ≤ cylTol r l ∧ (cylinderClass r l ≠ 1 → φ = min r (l / 2)) ∧
+      m.potentials.length = m.vertices.length ∧ (∀ p ∈ m.vertices, InCyl r l p) ∧
+      (∀ pq ∈ m.vertices.zip m.potentials, CylPot r l φ pq) := by
+  unfold makeTetrahedralCylinder at h
+  split at h
+  · cases h
+  · split at h
+    · cases h
+    · rename_i n hn
+      obtain ⟨c0, c2, c1⟩ := cylinderClass_spec r l
+      have ht := cylTol_pos r l
+      rcases cylinderClass_cases r l with hc | hc | hc
+      · rw [hc] at h
+        have hlt : r < l / 2 := by have := c0.mp hc; linarith
+        obtain ⟨a, _, b, c⟩ := cylinder_long_vertices r l n hr hlt m h
+        refine ⟨r, ?_, fun _ => (min_eq_left (le_of_lt hlt)).symm, a, b, c⟩
+        rw [min_eq_left (le_of_lt hlt)]; simp; exact le_of_lt ht
+      · rw [hc] at h
+        obtain ⟨a, _, b, c⟩ := cylinder_medium_vertices r l n hr hl m h
+        have habs := abs_le.mp (c1.mp hc)
+        refine ⟨r, ?_, fun hne => absurd hc hne, a, b, c⟩
+        rcases le_total r (l / 2) with hle | hle
+        · rw [min_eq_left hle]; simp; exact le_of_lt ht
+        · rw [min_eq_right hle, abs_le]; constructor <;> linarith [habs.1, habs.2]
+      · rw [hc] at h
+        have hlt : l / 2 < r := by have := c2.mp hc; linarith
+        obtain ⟨a, _, b, c⟩ := cylinder_short_vertices r l n hl hlt m h
+        refine ⟨l / 2, ?_, fun _ => (min_eq_right (le_of_lt hlt)).symm, a, b, c⟩
+        rw [min_eq_right (le_of_lt hlt)]; simp; exact le_of_lt ht
+
+example : (0 : ℝ) < 1 ∧ (0 : ℝ) < 3 := by norm_num
+
+/-! ## sphere, ellipsoid, capsule (structural; tiling statement PARTIAL, see the harness) -/
+
+/-- **C17, sphere (structural).** If `make_tetrahedral_sphere` returns a mesh (it does for order 0,
+`sphere_order0_defined`; orders 0–4 are exercised on the real code), there are `10·4^order + 3`
+vertices and `20·4^order` tetrahedra, each vertex but the last lies on the sphere of the given
+radius and has potential 0, the last vertex is the centre with potential `radius`, and every
+tetrahedron joins a surface triangle to the centre. -/
+theorem sphere_structure (r : ℝ) (hr : 0 < r) (order : Nat) (m : Mesh ℝ)
+    (h : makeTetrahedralSphere r order = .ok m) :
+    FanGood order r (fun p => V3.normSq p = r * r) m := sphere_good r hr order m h
+
+example : ∃ m, makeTetrahedralSphere (2 : ℝ) 0 = .ok m := sphere_order0_defined 2 (by norm_num)
+
+/-- **C17, ellipsoid (structural).** Likewise with the ellipsoid equation
+`(x/rx)² + (y/ry)² + (z/rz)² = 1` and the smallest radius as potential of the centre. -/
+theorem ellipsoid_structure (radii : V3 ℝ) (hr : 0 < radii.x ∧ 0 < radii.y ∧ 0 < radii.z)
+    (order : Nat) (m : Mesh ℝ) (h : makeTetrahedralEllipsoid radii order = .ok m) :
+    FanGood order (min (min radii.x radii.y) radii.z)
+      (fun p => (p.x / radii.x) ^ 2 + (p.y / radii.y) ^ 2 + (p.z / radii.z) ^ 2 = 1) m :=
+  ellipsoid_good radii hr order m h
+
+example : ((makeTetrahedralEllipsoid (⟨1, 2, 3⟩ : V3 Float) 1).toOption.map
+    fun m => (m.vertices.length, m.tets.length)).isSome = true := by decide +kernel
+
+/-- **C17, icosphere element counts.** `20·4^order` triangles for every order; the midpoint cache
+creates exactly the allocated `10·4^order + 2` vertices and ends empty for orders 0–2 (kernel
+evaluation; for larger orders this is exercised on the real code). -/
+theorem icosphere_vertex_counts :
+    (∀ order, (icoTopology order).1.length = 20 * 4 ^ order) ∧
+    (icoTopology 0).2.v = icoVertexCount 0 ∧ (icoTopology 1).2.v = icoVertexCount 1 ∧
+      (icoTopology 2).2.v = icoVertexCount 2 ∧
+      (icoTopology 0).2.cache = [] ∧ (icoTopology 1).2.cache = [] ∧ (icoTopology 2).2.cache = [] :=
+  ⟨icoTopology_triangles, icosphere_counts⟩
+
+example : icoVertexCount 2 = 162 := by decide
+
+/-- **C17, capsule (structural).** If the factory returns a mesh (positive height), the number of
+vertices per circle `n` is in `[3, 706]`, there are `4 + 2·⌊n/2⌋·n` vertices and
+`4(⌊n/2⌋−1)n + 5n` tetrahedra, every vertex lies on or inside the capsule, the first two vertices
+are the ends of the medial segment with potential `r`, all other potentials are 0. -/
+theorem capsule_structure_thm (r h hint : ℝ) (h0 : 0 < h) (m : Mesh ℝ)
+    (hm : makeTetrahedralCapsule r h hint = .ok m) :
+    ∃ n : Nat, 3 ≤ n ∧ n ≤ 706 ∧ m.vertices.length = 4 + 2 * (n / 2 * n) ∧
+      m.tets.length = 4 * ((n / 2 - 1) * n) + 5 * n ∧
+      (∀ p ∈ m.vertices, InCapsule r h p) ∧
+      m.vertices.getD 0 V3.zero = ⟨0, 0, h / 2⟩ ∧ m.vertices.getD 1 V3.zero = ⟨0, 0, -(h / 2)⟩ ∧
+      m.potentials.length = m.vertices.length ∧
+      (∀ i, i < m.vertices.length → m.potentials[i]? = some (if i < 2 then r else 0)) :=
+  capsule_structure r h hint h0 m hm
+
+/-- the capsule factory returns a mesh whenever the hint is non-zero (n ≥ 3 makes both divisions
+defined) -/
+example : ∃ m, makeTetrahedralCapsule (1 : ℝ) 2 1 = .ok m := by
+  obtain ⟨n3, _⟩ := clipInt_bounds ((2 : ℝ) * piLit * 1 / 1)
+  unfold makeTetrahedralCapsule
+  rw [if_neg (by norm_num)]
+  unfold capsuleMeshN capsuleVertices
+  have h1 : ¬ (clipInt3_706 ((2 : ℝ) * piLit * 1 / 1) / 2 = 0 ∨ clipInt3_706 ((2 : ℝ) * piLit * 1 / 1) = 0) := by
+    omega
+  simp only [h1, if_false]
+  exact ⟨_, rfl⟩
 
 end C17
 end D3
